@@ -39,7 +39,7 @@ var (
 	errNilSliceElement  = errors.New("null element for slice")
 	optionsCache        = make(map[string]optionsCacheValue)
 	cacheLock           sync.RWMutex
-	structRequiredCache = make(map[reflect.Type]requiredCacheValue)
+	structRequiredCache = make(map[requiredCacheKey]requiredCacheValue)
 	structCacheLock     sync.RWMutex
 )
 
@@ -48,6 +48,12 @@ type (
 		key     string
 		options *fieldOptions
 		err     error
+	}
+
+	// whether a struct needs a value depends on the tag key it is read under, not on the type alone
+	requiredCacheKey struct {
+		tag string
+		tp  reflect.Type
 	}
 
 	requiredCacheValue struct {
@@ -524,8 +530,9 @@ func setValueFromString(kind reflect.Kind, value reflect.Value, str string) erro
 }
 
 func structValueRequired(tag string, tp reflect.Type) (bool, error) {
+	cacheKey := requiredCacheKey{tag: tag, tp: tp}
 	structCacheLock.RLock()
-	val, ok := structRequiredCache[tp]
+	val, ok := structRequiredCache[cacheKey]
 	structCacheLock.RUnlock()
 	if ok {
 		return val.required, val.err
@@ -533,7 +540,7 @@ func structValueRequired(tag string, tp reflect.Type) (bool, error) {
 
 	required, err := implicitValueRequiredStruct(tag, tp)
 	structCacheLock.Lock()
-	structRequiredCache[tp] = requiredCacheValue{
+	structRequiredCache[cacheKey] = requiredCacheValue{
 		required: required,
 		err:      err,
 	}
